@@ -16,60 +16,28 @@ structure WF (s : MovingAverageConvergenceDivergence F) : Prop where
   slow : ExponentialMovingAverage.WF s.slow_ema
   signal : ExponentialMovingAverage.WF s.signal_ema
 
-/-- `new` as the code is today.  The three `ExponentialMovingAverage::new(..)?` calls are evaluated
-    in the order fast, slow, signal and the FIRST one that fails decides the outcome: e.g.
-    `new(usize::MAX, 0, 9)` panics (it never looks at `slow`), `new(0, usize::MAX, 9)` is
-    `Err(InvalidParameter)`. -/
+/-- `new` rejects exactly the argument triples with SOME period equal to 0 and never panics
+    (the three `ExponentialMovingAverage::new(..)?` calls can only fail with `InvalidParameter`,
+    so their evaluation order fast, slow, signal is not observable). -/
 theorem new_eq (fp sp gp : Nat) :
     (new fp sp gp : Res (MovingAverageConvergenceDivergence F)) =
-      if fp = 0 then .err .InvalidParameter
-      else if ¬ fp + 1 ≤ usizeMax then .panic
-      else if sp = 0 then .err .InvalidParameter
-      else if ¬ sp + 1 ≤ usizeMax then .panic
-      else if gp = 0 then .err .InvalidParameter
-      else if gp + 1 ≤ usizeMax then .ok (fresh fp sp gp) else .panic := by
+      if fp = 0 ∨ sp = 0 ∨ gp = 0 then .err .InvalidParameter else .ok (fresh fp sp gp) := by
   unfold new
   simp only [ExponentialMovingAverage.new_eq]
-  by_cases f0 : fp = 0
-  · simp [f0, bind, Res.bind]
-  by_cases f1 : fp + 1 ≤ usizeMax
-  case neg => simp [f0, f1, bind, Res.bind]
-  by_cases s0 : sp = 0
-  · simp [f0, f1, s0, bind, Res.bind]
-  by_cases s1 : sp + 1 ≤ usizeMax
-  case neg => simp [f0, f1, s0, s1, bind, Res.bind]
-  by_cases g0 : gp = 0
-  · simp [f0, f1, s0, s1, g0, bind, Res.bind]
-  by_cases g1 : gp + 1 ≤ usizeMax <;> simp [f0, f1, s0, s1, g0, g1, bind, Res.bind, fresh]
-
-/-- away from the `usize` overflow corner: `Err(InvalidParameter)` iff SOME period is 0 -/
-theorem new_eq_of_small (fp sp gp : Nat)
-    (hf : fp + 1 ≤ usizeMax) (hs : sp + 1 ≤ usizeMax) (hg : gp + 1 ≤ usizeMax) :
-    (new fp sp gp : Res (MovingAverageConvergenceDivergence F)) =
-      if fp = 0 ∨ sp = 0 ∨ gp = 0 then .err .InvalidParameter else .ok (fresh fp sp gp) := by
-  rw [new_eq]
   by_cases f0 : fp = 0 <;> by_cases s0 : sp = 0 <;> by_cases g0 : gp = 0 <;>
-    simp [f0, s0, g0, hf, hs, hg]
+    simp [f0, s0, g0, bind, Res.bind, fresh]
 
 /-- `new` never succeeds with a zero period and only ever succeeds with `fresh` -/
 theorem new_ok_iff (fp sp gp : Nat) (r : MovingAverageConvergenceDivergence F) :
-    new fp sp gp = .ok r ↔
-      (0 < fp ∧ 0 < sp ∧ 0 < gp ∧ fp + 1 ≤ usizeMax ∧ sp + 1 ≤ usizeMax ∧ gp + 1 ≤ usizeMax ∧
-        r = fresh fp sp gp) := by
+    new fp sp gp = .ok r ↔ (0 < fp ∧ 0 < sp ∧ 0 < gp ∧ r = fresh fp sp gp) := by
   rw [new_eq]
-  by_cases f0 : fp = 0
-  · simp [f0]
-  by_cases f1 : fp + 1 ≤ usizeMax
-  case neg => simp [f0, f1]
-  by_cases s0 : sp = 0
-  · simp [f0, f1, s0]
-  by_cases s1 : sp + 1 ≤ usizeMax
-  case neg => simp [f0, f1, s0, s1]
-  by_cases g0 : gp = 0
-  · simp [f0, f1, s0, s1, g0]
-  by_cases g1 : gp + 1 ≤ usizeMax
-  · simp [f0, f1, s0, s1, g0, g1, Nat.pos_of_ne_zero, eq_comm]
-  · simp [f0, f1, s0, s1, g0, g1]
+  by_cases f0 : fp = 0 <;> by_cases s0 : sp = 0 <;> by_cases g0 : gp = 0 <;>
+    simp [f0, s0, g0, Nat.pos_of_ne_zero, eq_comm]
+
+/-- `new` has no panicking operation -/
+theorem new_ne_panic (fp sp gp : Nat) :
+    (new fp sp gp : Res (MovingAverageConvergenceDivergence F)) ≠ .panic := by
+  rw [new_eq]; split <;> simp
 
 theorem fresh_wf (fp sp gp : Nat) (hf : 0 < fp) (hs : 0 < sp) (hg : 0 < gp) :
     WF (fresh fp sp gp : MovingAverageConvergenceDivergence F) :=
@@ -150,6 +118,6 @@ theorem default_eq :
     (default_ : Option (MovingAverageConvergenceDivergence F)) = some (fresh 12 26 9) := by
   unfold default_
   rw [new_eq]
-  simp [unwrap, usizeMax]
+  simp [unwrap]
 
 end TaRs.Gen.MovingAverageConvergenceDivergence
